@@ -34,13 +34,20 @@ def main(argv=None):
 
     mod = importlib.import_module(f"vf.checks.{a.prop.lower()}")
     ctx = Ctx(a.prop, a.tier, a.seed, a.shard, a.nshards)
+    from vf import instrument, reach
+
+    instrument.install()
+    reach.start()
     try:
         mod.run(ctx)
     except Exception:
         traceback.print_exc()
         return 4  # harness failure: inconclusive, never a violation
+    res = ctx.result()
+    res["reach"] = reach.report(getattr(mod, "ANCHORS", []))
+    res["contract_evaluations"] = dict(instrument.COUNTS)
     with open(a.out, "w") as f:
-        json.dump(ctx.result(), f)
+        json.dump(res, f)
     return 0
 
 
